@@ -799,12 +799,28 @@ fn decoys(src: &str) -> Vec<String> {
 }
 
 fn do_parse(c: &Case, buf: &mut String) -> Option<ParsedTestCase> {
-    let src = c.src.clone();
-    if src.len() < 20_000 {
-        for d in decoys(&src) {
-            let _ = catch_unwind(AssertUnwindSafe(|| ParsedTestCase::from_str(&d).map(|_| ()).map_err(|_| ())));
+    // the text is parsed from a buffer that held a look-alike of the same length a moment ago (a reused read buffer):
+    // what is parsed is the CONTENT of the string slice, not its address
+    let mut src = String::with_capacity(c.src.len() + 8);
+    if c.src.len() < 20_000 {
+        for d in decoys(&c.src) {
+            if d.len() == c.src.len() {
+                src.clear();
+                src.push_str(&d);
+                let _ = catch_unwind(AssertUnwindSafe(|| ParsedTestCase::from_str(&src).map(|_| ()).map_err(|_| ())));
+            } else {
+                let _ = catch_unwind(AssertUnwindSafe(|| ParsedTestCase::from_str(&d).map(|_| ()).map_err(|_| ())));
+            }
         }
     }
+    // ... and once more directly before the real text, in the very same buffer
+    if let Some(d) = decoys(&c.src).into_iter().find(|d| d.len() == c.src.len() && c.src.len() < 20_000) {
+        src.clear();
+        src.push_str(&d);
+        let _ = catch_unwind(AssertUnwindSafe(|| ParsedTestCase::from_str(&src).map(|_| ()).map_err(|_| ())));
+    }
+    src.clear();
+    src.push_str(&c.src);
     match catch_unwind(AssertUnwindSafe(|| ParsedTestCase::from_str(&src))) {
         Err(p) => {
             out(buf, &format!("PARSE panic # {}", panic_msg(&p)));
